@@ -59,7 +59,11 @@ def run_one(m, keep=False):
     root = os.path.join(tmp, "repo")
     try:
         subprocess.check_call(["rsync", "-a", "--exclude", "target", "--exclude", ".git", REPO + "/", root + "/"])
-        apply_edits(root, m["edit"])
+        if m.get("edit"):
+            apply_edits(root, m["edit"])
+        if m.get("patch"):
+            pf = m["patch"] if os.path.isabs(m["patch"]) else os.path.join(VERIF, m["patch"])
+            subprocess.check_call(["patch", "-p1", "-s", "-i", pf], cwd=root)
         if m.get("patch_out"):
             pass
         env = dict(os.environ, FEOS_REPO=root)
@@ -108,8 +112,12 @@ def main():
     ap.add_argument("--kind")
     ap.add_argument("--props")
     ap.add_argument("--json")
+    ap.add_argument("--patch", help="ad-hoc: apply this patch file instead of the corpus (use with --props)")
     a = ap.parse_args()
     ms = load_corpus()
+    if a.patch:
+        ms = [{"name": os.path.basename(os.path.dirname(a.patch)) or "adhoc", "kind": "break", "props": a.props.split(","), "expect": "|", "patch": a.patch}]
+        a.props = None
     if a.only:
         want = set(a.only.split(","))
         ms = [m for m in ms if m["name"] in want]
